@@ -11,8 +11,9 @@
 (* response writer (wid).                                                  *)
 (***************************************************************************)
 EXTENDS Naturals, Sequences, FiniteSets, TLC
-RouteKinds == {"static", "param", "opt", "regex", "all", "hdr"}
-HasVal(k) == k \in {"param", "opt", "regex", "all"}
+\* "render": the handler answers through the Render service that the Renderer middleware mapped for THIS request
+RouteKinds == {"static", "param", "opt", "regex", "all", "hdr", "render"}
+HasVal(k) == k \in {"param", "opt", "regex", "all", "render"}
 Serial(rq) == [h |-> rq.route, val |-> IF HasVal(rq.route) THEN rq.val ELSE "", tag |-> rq.id,
                url |-> "/p/" \o rq.val, wid |-> rq.id]
 ====
